@@ -33,6 +33,15 @@ for name, (prop, needs) in NEEDS.items():
                                    "N04": ["C01", "C09"], "N05": ["C03", "C05"], "N06": ["C18", "C12"], "N07": ["C19"], "N08": ["C01", "C03", "C07"], "N09": ["C05", "C08", "C15"], "N10": ["C16", "C17", "C12"], "N11": ["C04", "C20", "C06"]}.get(name, ["C01"])
         meta["origin"] = "written by the harness author: a refactoring under which every property still holds; no check may report it"
         meta["matrix_result"] = "no check fired" if c == [] else ("not run" if c is None else f"FALSE ALARM: {c}")
+    if prop == "outside":
+        meta["breaks_property"] = "none of C01-C20 as stated"
+        meta["caught_by_quick"] = []
+        meta["must_pass_quick"] = ["C05", "C07", "C14"]
+        meta["origin"] = "written by an independent sub-agent for C05/C07/C14; it changes only what a caller observes when it keeps using the caller-held decoder state AFTER the decoder has returned an error - behaviour none of the properties constrains (DESIGN 0.8); the checks must stay quiet"
+        meta["matrix_result"] = "no check fired" if c == [] else ("not run" if c is None else f"fired: {c}")
+    if name.startswith("R5-O"):
+        meta["origin"] = "written by the harness author (value-dependent slips used to try U_field); no demonstration test, the check output is the demonstration"
+        meta["confirmed"] = "with the change applied the 73 existing tests pass (cargo test --workspace --offline)"
     if name.startswith("M") or name.startswith("N"):
         meta["confirmed"] = "with the change applied the 73 existing tests pass (cargo test --workspace --offline)"
         meta["ran"] = "cargo test --workspace --offline (73 passed) with the patch; tools/matrix.py <patch> C01..C20 (quick tier, fast profile)"
